@@ -247,6 +247,23 @@ func (torrent *Torrent) MetadataComplete() error {
 		}
 	}
 
+	// A path names at most one file, and a file is not also a directory.
+	paths := make(map[string]bool, len(files))
+	for _, f := range files {
+		p := f.Path.String()
+		if paths[p] {
+			return errors.New("duplicate file path")
+		}
+		paths[p] = true
+	}
+	for _, f := range files {
+		for i := 1; i < len(f.Path); i++ {
+			if paths[f.Path[:i].String()] {
+				return errors.New("file is also a directory")
+			}
+		}
+	}
+
 	chunks := (length + int64(config.ChunkSize) - 1) /
 		int64(config.ChunkSize)
 	if chunks != int64(uint32(chunks)) || chunks != int64(int(chunks)) {
